@@ -1,5 +1,6 @@
 import Props.C01
 import Props.C01RS
+import Props.C01AP
 #print axioms C01.delta_correct
 #print axioms C01.export_rule
 #print axioms C01.never_back_to_source
@@ -16,3 +17,14 @@ import Props.C01RS
 #print axioms C01RS.client_event_leaves_ordinary_group
 #print axioms C01RS.ordinary_event_leaves_client_group
 #print axioms C01RS.pinned_stuck_route
+#print axioms C01AP.advertised_only_current_exportable
+#print axioms C01AP.advertised_count
+#print axioms C01AP.identifiers_distinct
+#print axioms C01AP.identifier_stable
+#print axioms C01AP.bookkeeping_exact
+#print axioms C01AP.transfer_sends_k_best
+#print axioms C01AP.promotion_takes_best_held
+#print axioms C01AP.soft_reset_out_changes_nothing
+#print axioms C01AP.pinned_stuck_route_counterexample
+#print axioms C01AP.not_always_k_best
+#print axioms C01AP.pinned_over_send_max_counterexample
